@@ -1,4 +1,6 @@
-(* Model/Syncer.v — the full node's block application: block/sync.go (SyncLoop header/data cases,
+(* Model/SyncerOld.v — FROZEN COPY of the model of the code BEFORE the repairs f41125c (block saved before the
+   state) and 5877669 (SyncLoop tries the loaded caches at start); used only by the before_the_repair_*
+   Examples of Props/C02.v and Props/C05.v.  Original header: the full node's block application: block/sync.go (SyncLoop header/data cases,
    trySyncNextBlock, handleEmptyDataHash), pkg/cache/cache.go (items by height, seen hashes, the
    gob files written on clean shutdown), block/manager.go (getInitialState, NewManager start-up,
    execValidate/execApplyBlock via Model/Types.v), pkg/store (state, block batch, height records).
@@ -88,12 +90,11 @@ Record node := {
 Section WithExec.
   Variable exec : root -> N -> Z -> list tx -> root.    (* Executor.ExecuteTxs: prev root, height, time, txs *)
 
-  (* the three durable writes of one block application, in the code's order: sync.go trySyncNextBlock
-     (since f41125c: the block is saved before the state) *)
+  (* the three durable writes of one block application, in the code's order: sync.go:163-174 *)
   Definition block_writes (m : img) (new : cstate) (sh : sheader) (d : data) : list wr :=
     let n := h_height (sh_hdr sh) in
-    [ WBatch [Put (block_key n) (VBlock sh d)];                       (* SaveBlockData *)
-      W1 (Put state_key (VState new)) ] ++                            (* updateState *)
+    [ W1 (Put state_key (VState new));                                (* updateState *)
+      WBatch [Put (block_key n) (VBlock sh d)] ] ++                   (* SaveBlockData *)
     (if n <=? d_height m then [] else [W1 (Put height_key (VHeight n))]).   (* SetHeight: only raises *)
 
   Record loopst := {
@@ -195,19 +196,13 @@ Section WithExec.
         else Some (s, if s_height s <=? d_height m then [] else [W1 (Put height_key (VHeight (s_height s)))])
     end.
 
-  (* a new process on image m: NewManager, then SyncLoop starts and (since 5877669) calls
-     trySyncNextBlock once on the caches loaded from the files of the last clean shutdown.
-     [log] is the ghost log.  Returns the node and the atomic writes made, in order. *)
-  Definition boot (g : config) (m : img) (files : cache) (log : list call) : node * list wr :=
+  (* a new process on image m; [files] are the cache files found on disk; [log] is the ghost log *)
+  Definition boot (g : config) (m : img) (files : cache) (log : list call) : node :=
     match boot_writes g m with
-    | Some (s, ws) =>
-        let st := try_sync (S (length (c_hdrs files)))
-                    {| l_disk := apply_writes m ws; l_last := s; l_cache := files; l_log := log; l_ws := [];
-                       l_status := Running |} in
-        ({| n_disk := l_disk st; n_last := l_last st; n_cache := l_cache st; n_files := files;
-            n_status := l_status st; n_log := l_log st |}, ws ++ l_ws st)
-    | None => ({| n_disk := m; n_last := genesis_state g; n_cache := empty_cache; n_files := files;
-                  n_status := BootFailed; n_log := log |}, [])
+    | Some (s, ws) => {| n_disk := apply_writes m ws; n_last := s; n_cache := files; n_files := files;
+                         n_status := Running; n_log := log |}
+    | None => {| n_disk := m; n_last := genesis_state g; n_cache := empty_cache; n_files := files;
+                 n_status := BootFailed; n_log := log |}
     end.
 
   (* ---- histories ---------------------------------------------------------------------------------- *)
@@ -217,22 +212,25 @@ Section WithExec.
   | ICrash (e : event) (k : nat)   (* the process dies while handling e, after k atomic writes; then starts *)
   | ICrashBoot (k : nat).          (* the process dies, and the next start dies after k writes; then starts *)
 
-  Definition restart_files (nd : node) : cache :=
-    match n_status nd with BootFailed => n_files nd | _ => n_cache nd end.
+  Definition boot_ws (g : config) (m : img) : list wr :=
+    match boot_writes g m with Some (_, ws) => ws | None => [] end.
 
   Definition step (g : config) (nd : node) (i : item) : node :=
     match i with
     | IEv e => fst (process nd e)
-    | IRestart => fst (boot g (n_disk nd) (restart_files nd) (n_log nd))
+    | IRestart =>
+        let files := match n_status nd with BootFailed => n_files nd | _ => n_cache nd end in
+        boot g (n_disk nd) files (n_log nd)
     | ICrash e k =>
+        let '(nd', ws) := process nd e in
         (* ghost log: only the calls of completed steps are kept (whether the call of the block being
            applied at the instant of death was made is not determined by the number of writes) *)
-        fst (boot g (crash_after k (n_disk nd) (snd (process nd e))) (n_files nd) (n_log nd))
+        boot g (crash_after k (n_disk nd) ws) (n_files nd) (n_log nd)
     | ICrashBoot k =>
-        fst (boot g (crash_after k (n_disk nd) (snd (boot g (n_disk nd) (n_files nd) (n_log nd)))) (n_files nd) (n_log nd))
+        boot g (crash_after k (n_disk nd) (boot_ws g (n_disk nd))) (n_files nd) (n_log nd)
     end.
 
-  Definition init (g : config) : node := fst (boot g [] empty_cache []).
+  Definition init (g : config) : node := boot g [] empty_cache [].
   Definition run_from (g : config) (nd : node) (h : list item) : node := fold_left (step g) h nd.
   Definition run (g : config) (h : list item) : node := run_from g (init g) h.
 
@@ -320,6 +318,18 @@ Section WithExec.
         (is_empty_commitment (d_txs (snd b)) ||
          negb (existsb (fun b' => commitment_eqb (d_txs (snd b)) (d_txs (snd b'))) C')) &&
         distinct_commitmentsb C'
+    end.
+
+  (* guard of C05_recovery_partial: no crash lands between the state write and the block save of an
+     application (write index 1 of a block's three writes) *)
+  Definition bad_crash (nd : node) (e : event) (k : nat) : bool :=
+    let ws := snd (process nd e) in
+    Nat.ltb k (length ws) && Nat.eqb (Nat.modulo k 3%nat) 1%nat.
+  Fixpoint no_bad_crash (g : config) (nd : node) (h : list item) : bool :=
+    match h with
+    | [] => true
+    | i :: r =>
+        match i with ICrash e k => negb (bad_crash nd e k) | _ => true end && no_bad_crash g (step g nd i) r
     end.
 
   (* the recorded chain height has a retrievable proposer block at every height, and the recorded
